@@ -327,6 +327,8 @@ impl RD {
 pub enum AlterOpt {
     AddColumn(Col, bool),
     ModifyColumn(Col),
+    /// Postgres only: modify_column with a ColumnDef that has no type (specifications only)
+    ModifyNoType(Col),
     RenameColumn(String, String),
     DropColumn(String),
     AddForeignKey(Fk),
@@ -357,6 +359,19 @@ impl RD {
                         }
                     }
                 },
+                AlterOpt::ModifyNoType(c) => {
+                    for s in &c.specs {
+                        match s {
+                            CS::Null => acts.push(format!("ALTER COLUMN {} DROP NOT NULL", self.id(&c.name))),
+                            CS::NotNull => acts.push(format!("ALTER COLUMN {} SET NOT NULL", self.id(&c.name))),
+                            CS::Default(v) => acts.push(format!("ALTER COLUMN {} SET DEFAULT {}", self.id(&c.name), self.defval(v))),
+                            CS::Unique => acts.push(format!("ADD UNIQUE ({})", self.id(&c.name))),
+                            CS::PrimaryKey => acts.push(format!("ADD PRIMARY KEY ({})", self.id(&c.name))),
+                            CS::Check(k) => acts.push(format!("ADD CHECK (({}) > ({k}))", self.id(&c.name))),
+                            CS::AutoInc | CS::Generated(..) | CS::Comment(_) | CS::Extra(_) => {}
+                        }
+                    }
+                }
                 AlterOpt::RenameColumn(f, t) => acts.push(format!("RENAME COLUMN {} TO {}", self.id(f), self.id(t))),
                 AlterOpt::DropColumn(c) => acts.push(format!("DROP COLUMN {}", self.id(c))),
                 AlterOpt::AddForeignKey(fk) => acts.push(format!("ADD {}", self.fk_clause(fk))),
